@@ -81,6 +81,8 @@ gen_min(ZCase &c)
   }
 }
 
+bool g_force_threads = false;
+
 ZCase
 gen_case(const std::string &prop, bool big)
 {
@@ -89,6 +91,22 @@ gen_case(const std::string &prop, bool big)
   c.cls = pick(0, 1);
   c.type = pick(0, 3);
   c.n = gen_n(prop, c.cls, big);
+  if (prop == "C06" && c.cls == 1 && chance(6)) {
+    // the approximate class needs no table: bin counts up to the limits of the integer type are admissible
+    // (n + 1 and min + n - 1 must be representable; 64-bit types are kept below 2^63 because the search positions are int64_t)
+    const int w = (c.type == 0 || c.type == 2) ? 32 : 64;
+    const uint64_t top = c.type == 0 ? 0xFFFFFFFDULL : c.type == 2 ? 0x7FFFFFFDULL : 0x7FFFFFFFFFFFFFFDULL;
+    switch (pick(0, 4)) {
+      case 0: c.n = top - pick64(0, 1000); break;
+      case 1: c.n = (1ULL << (w - 2)) - 500 + pick64(0, 1000); break;                       // around a quarter of the range
+      case 2: c.n = std::min<uint64_t>(top, (1ULL << (w - 1)) - 500 + pick64(0, 1000)); break;  // around half of the range
+      case 3: c.n = pick64(1ULL << 24, top); break;
+      default: c.n = std::min<uint64_t>(top, (1ULL << pick(20, w - 2)) + pick64(0, 3)); break;
+    }
+  }
+  // C19: now and then a large exact table (> 2^16 bins), shared between threads before anybody sampled it
+  const bool large_exact = prop == "C19" && c.cls == 0 && chance(3);
+  if (large_exact) c.n = pick64(65000, 70000);
   c.alpha = gen_alpha(prop == "C18" && c.cls == 1 && chance(80));
   switch (c.type) {
     case 0: gen_min<uint32_t>(c); break;
@@ -115,7 +133,16 @@ gen_case(const std::string &prop, bool big)
     c.threads = chance(35) ? pick(2, 8) : 0;
     c.engseed = *rc::gen::arbitrary<uint64_t>();
     c.seqlen = pick(1, 3) == 1 ? pick(1, 15) : pick(16, 64);
-    if (c.n > (c.cls == 0 ? 4000ULL : 200000ULL)) c.n = pick64(1, c.cls == 0 ? 4000 : 200000);
+    if (!large_exact && c.n > (c.cls == 0 ? 4000ULL : 200000ULL)) c.n = pick64(1, c.cls == 0 ? 4000 : 200000);
+    if (large_exact) {
+      c.threads = pick(2, 6);
+      c.seqlen = pick(4, 16);
+    }
+    if (g_force_threads) {
+      if (c.threads < 2) c.threads = pick(2, 5);
+      c.rounds = 4;
+      if (c.seqlen > 24) c.seqlen = 24;
+    }
   }
   return c;
 }
@@ -139,6 +166,7 @@ main(int argc, char **argv)
     else if (a == "--count") count = strtoull(next().c_str(), nullptr, 10);
     else if (a == "--out") out = next();
     else if (a == "--big") big = true;
+    else if (a == "--force-threads") g_force_threads = true;
   }
   if (mode == "replay") {
     ZCase c;
